@@ -37,7 +37,7 @@ var Check = &run.Check{
 	ID:    "C04",
 	Level: "exploration",
 	Rule: "case = synthetic code model (as C03; emphasis on fan-in with a caller invoking the target 1-3 times, callers with own callers, chains, cycles through the target, " +
-		"mutual recursion, external callees) + target (hub/any/absent); executed through rcall.RCallGraph.Analysis (map via writeCallback + DOT) in-process, " +
+		"mutual recursion, external callees; classes recorded as Class / Interface / unrecorded; names with quotes, non-ASCII letters and identifier-ignorable format characters; an uncalled method differing only in letter case from a called one) + target (hub/any/absent/uncalled case twin); executed through rcall.RCallGraph.Analysis (map via writeCallback + DOT) in-process, " +
 		"`coca rcall` (rcall.dot, rcallmap.json) and `coca call -l` for every Nth case; non-trivial = the target has >= 2 call sites from project methods and some direct caller has callers itself; " +
 		"distinct = hash of (mode, adjacency structure, target index)",
 	Assumptions: []string{
@@ -58,9 +58,9 @@ var Check = &run.Check{
 
 func runCase(c *run.Ctx, o *run.Outcome) {
 	r := c.Rng
-	opts := modelgen.Opts{MaxClasses: 8, MaxMethods: 40, MaxOut: 6, Quotes: true, Overloads: true, DefaultPkg: true}
+	opts := modelgen.Opts{MaxClasses: 8, MaxMethods: 40, MaxOut: 6, Quotes: true, Overloads: true, DefaultPkg: true, Kinds: true, CaseTwins: true, OddRunes: true}
 	if r.Chance(1, 2) {
-		opts = modelgen.Opts{MaxClasses: 4, MaxMethods: 10, MaxOut: 3, Quotes: true, Overloads: true, DefaultPkg: true}
+		opts = modelgen.Opts{MaxClasses: 4, MaxMethods: 10, MaxOut: 3, Quotes: true, Overloads: true, DefaultPkg: true, Kinds: true, CaseTwins: true, OddRunes: true}
 	}
 	m := modelgen.Generate(r.Fork(), opts)
 	deps := common.ToCoca(m)
@@ -86,6 +86,15 @@ func runCase(c *run.Ctx, o *run.Outcome) {
 	}
 	if _, ok := m.Declared()[target]; !ok {
 		o.Count("targets_absent", 1)
+	}
+	if len(m.CaseTwins) > 0 && target == m.CaseTwins[0] {
+		o.Count("targets_uncalled_case_twin_of_a_called_method", 1)
+	}
+	for _, me := range m.Methods() {
+		if strings.ContainsAny(me.Name, "\u200c\u200d\u00ad") {
+			o.Count("models_with_format_runes_in_names", 1)
+			break
+		}
 	}
 	o.Count("methods", len(m.Methods()))
 	o.Seen("graph_modes", m.Shape)
